@@ -29,7 +29,7 @@ EXPLANATION = (
     "outside nodes are removed from the body and exactly one dummy entry "
     "and one dummy exit are added. R7.6 the loop event records the uids of "
     "the dummy entry/exit/breaks that later phases look up."
-    " Added: R7.6 the loop event records the body's entry/exit/break uids; R7.7 pruning from the root after the rewrite; R7.8 components keep their role across hand-offs; R7.9 a component revised after classification is revised before any phase reads it; R7.10 carving the body cuts only loop-back and boundary edges.")
+    " Added: R7.6 the loop event records the body's entry/exit/break uids; R7.7 pruning from the root after the rewrite; R7.8 components keep their role across hand-offs; R7.9 a component revised after classification is revised before any phase reads it; R7.10 carving the body cuts only loop-back and boundary edges; R7.11 break events are partitioned exactly between the two re-attachment handlers and the exit fan-out is recorded before the cut; R7.12 the dummy start / end of a body mirror the successor / predecessor sets of the loop boundary in the parent graph (every outside predecessor / successor, every set inside the loop's types, with multiplicities, fallback for an end event without exit), compared as name-free role expressions (sa/roles.py).")
 NOT_DECIDED = ["correctness of calc_components_of_loop and of the event-set "
                "rewriting", "in-place mutation of loop.break_events while "
                "iterating (recorded in DESIGN section 9, not armed)"]
@@ -49,6 +49,7 @@ def check(rep: Report, ctx: Ctx) -> None:
     r79(rep, ctx)
     r710(rep, ctx)
     r711(rep, ctx)
+    r712(rep, ctx)
 
 
 def r71(rep: Report, ctx: Ctx, det: FuncInfo) -> None:
@@ -739,3 +740,190 @@ def exit_fanout_recorded(rep: Report, ctx: Ctx, rule: str) -> None:
                                  "mapping is empty: the dummy end gets a "
                                  "single successor set and the branch count "
                                  "of the loop's exit is lost"))
+
+
+# --------------------------------------------------------------------------
+def _setnorm(s: str) -> str:
+    """``frozenset(X.to_list())`` / ``set(X.to_list())`` == ``X.to_frozenset()``;
+    a set built by ``set(..)`` / ``frozenset(..)`` over a generator == the
+    set comprehension."""
+    import re
+    s = re.sub(r"^(?:frozen)?set\((.*)\.to_list\(\)\)$", r"\1.to_frozenset()",
+               s)
+    m = re.match(r"^(?:frozen)?set\(\((.*)\)\)$", s)
+    if m:
+        s = "{" + m.group(1) + "}"
+    m = re.match(r"^(?:frozen)?set\(\[(.*)\]\)$", s)
+    if m and " for.." in s:
+        s = "{" + m.group(1) + "}"
+    return s
+
+
+def _evidence_writes(ctx: Ctx, fi: FuncInfo):
+    """(method, receiver role, argument role, guards, call) of every
+    ``update_event_sets`` / ``update_in_event_sets`` / ``add_edge`` call."""
+    from ..roles import Roles
+    R = Roles(ctx, fi)
+    out = []
+    for c in ast.walk(fi.node):
+        if isinstance(c, ast.Call) and isinstance(c.func, ast.Attribute) \
+                and c.func.attr in ("update_event_sets",
+                                    "update_in_event_sets", "add_edge"):
+            recv = R.of(c.func.value, c)
+            side = list(R.side)
+            args = []
+            for a in c.args:
+                args.append(R.of(a, c))
+                side += R.side
+            gs = []
+            for g in R.guards(c) + side:
+                if g[0] == "le":
+                    g = ("le", _setnorm(g[1]), _setnorm(g[2]), g[3])
+                if g not in gs:
+                    gs.append(g)
+            out.append((c.func.attr, recv, tuple(args), gs, c))
+    return R, out
+
+
+def loop_boundary_evidence(rep: Report, ctx: Ctx, rule: str) -> None:
+    """(shared: R7.12 / R5.14)  The dummy start and end of a loop body stand
+    for everything outside the loop.  The diagram builder derives the entry
+    logic of the body from the *successor sets of the dummy start* and closes
+    a fork that ends the body from the *predecessor sets of the dummy end*;
+    both are copied from the loop's boundary in the parent graph:
+
+    * dummy start: every successor set of every outside predecessor of the
+      loop's start events that lies inside the start events' types, with its
+      multiplicities (``to_list``);
+    * dummy end: every predecessor set of every outside successor of each
+      end event that lies inside the loop's types; an end event without an
+      outside successor contributes itself;
+    * wiring: start -> each loop start (which records the dummy start as a
+      predecessor), each loop end -> end (which records the end's type as a
+      predecessor set of the dummy end); an end event gets the recorded exit
+      fan-out as successor sets, else the dummy end alone.
+
+    A set that is not copied is a branch of the body that is never drawn
+    (events vanish: C05 "names exactly the observed events", C01) or a fork
+    without its ``end fork`` (C05 well-formedness)."""
+    INS = "get_innodes_not_in_set(P:loop.start_events,P:loop.loop_events," \
+          "P:graph)"
+    OUTS = "get_outnodes_not_in_set({each(P:loop.end_events)}," \
+           "P:loop.loop_events,P:graph)"
+    ST_TYPES = "{each(P:loop.start_events).event_type for..}"
+    LP_TYPES = "{each(P:loop.loop_events).event_type for..}"
+
+    def describe(w) -> str:
+        return f"{w[1]}.{w[0]}({', '.join(w[2])}) when {w[3]}"
+
+    def expect(fi: FuncInfo, writes, what: str, method: str, recv: str,
+               args: tuple[str, ...], must: list[tuple[str, ...]],
+               may: list[tuple[str, ...]] = ()) -> None:
+        hits = [w for w in writes if w[0] == method and w[1] == recv
+                and w[2] == args]
+        ok = len(hits) == 1
+        why = f"{len(hits)} statement(s) {recv}.{method}({', '.join(args)})"
+        if ok:
+            gs = hits[0][3]
+            ok = all(m in gs for m in must) and all(
+                g in must or g in may for g in gs)
+            why = f"runs when {gs or 'always'}; required {must or 'always'}"
+        else:
+            why += "; evidence writes of the function: " + "; ".join(
+                describe(w) for w in writes if w[0] == method)[:400]
+        rep.ob(rule, what, ok, fi=fi, node=hits[0][4] if hits else fi.node,
+               detail=why)
+
+    def fresh_dummy(fi: FuncInfo, R, const: str) -> None:
+        rets = [r for r in ast.walk(fi.node) if isinstance(r, ast.Return)]
+        vals = {R.of(r.value, r) if r.value is not None else "None"
+                for r in rets}
+        ctors = [c for c in ast.walk(fi.node) if isinstance(c, ast.Call)
+                 and call_name(c) == "Event"]
+        ok = vals == {f"Event({const})"} and len(ctors) == 1
+        rep.ob(rule, f"{fi.name} returns the one fresh Event({const}) it "
+               "builds", ok, fi=fi, node=rets[0] if rets else fi.node,
+               detail=f"returns {sorted(vals)}; {len(ctors)} Event(..) "
+                      "constructor call(s)")
+
+    def only(fi: FuncInfo, writes, recv: str, n: int) -> None:
+        mine = [w for w in writes if w[1] == recv and w[0] != "add_edge"]
+        rep.ob(rule, f"{fi.name}: no other evidence is written on {recv}",
+               len(mine) == n, fi=fi,
+               node=mine[-1][4] if mine else fi.node,
+               detail="; ".join(describe(w) for w in mine)[:400])
+
+    # ---- dummy start
+    cs = ctx.func("create_start_event")
+    R, ws = _evidence_writes(ctx, cs)
+    fresh_dummy(cs, R, "DUMMY_START_EVENT")
+    src = f"each(each({INS}).event_sets)"
+    expect(cs, ws, "dummy start mirrors every successor set (with "
+           "multiplicities) of every outside predecessor that stays within "
+           "the loop's start types", "update_event_sets",
+           "Event(DUMMY_START_EVENT)", (f"{src}.to_list()",),
+           [("le", f"{src}.to_frozenset()", ST_TYPES, "1")],
+           [("truth", INS, "1")])
+    only(cs, ws, "Event(DUMMY_START_EVENT)", 1)
+    # ---- dummy end
+    ce = ctx.func("create_end_event")
+    R, ws = _evidence_writes(ctx, ce)
+    fresh_dummy(ce, R, "DUMMY_END_EVENT")
+    src = f"each(each({OUTS}).in_event_sets)"
+    expect(ce, ws, "dummy end mirrors every predecessor set (with "
+           "multiplicities) of every outside successor of each end event "
+           "that stays within the loop's types", "update_in_event_sets",
+           "Event(DUMMY_END_EVENT)", (f"{src}.to_list()",),
+           [("le", f"{src}.to_frozenset()", LP_TYPES, "1")],
+           [("truth", OUTS, "1")])
+    expect(ce, ws, "an end event without an outside successor contributes "
+           "itself to the dummy end", "update_in_event_sets",
+           "Event(DUMMY_END_EVENT)",
+           ("[each(P:loop.end_events).event_type]",),
+           [("truth", OUTS, "0")])
+    only(ce, ws, "Event(DUMMY_END_EVENT)", 2)
+    # ---- wiring
+    a_s = ctx.func("add_start_event_to_graph")
+    R, ws = _evidence_writes(ctx, a_s)
+    expect(a_s, ws, "edge dummy start -> every loop start event", "add_edge",
+           "P:graph", ("P:start_event", "each(P:loop.start_events)"), [])
+    expect(a_s, ws, "every loop start event records the dummy start as a "
+           "predecessor", "update_in_event_sets",
+           "each(P:loop.start_events)", ("[DUMMY_START_EVENT]",), [])
+    a_e = ctx.func("add_end_event_to_graph")
+    R, ws = _evidence_writes(ctx, a_e)
+    import re
+
+    def m_norm(s: str) -> str:
+        return re.sub(r"phi\(P:end_event_to_event_lists\|\{\}\)|"
+                      r"\(P:end_event_to_event_lists Or \{\}\)|"
+                      r"P:end_event_to_event_lists", "M", s)
+    ws = [(w[0], m_norm(w[1]), tuple(m_norm(a) for a in w[2]),
+           [tuple(m_norm(x) for x in g) for g in w[3]], w[4]) for w in ws]
+    ends = "each(P:loop.end_events)"
+    expect(a_e, ws, "edge every loop end event -> dummy end", "add_edge",
+           "P:graph", (ends, "P:end_event"), [])
+    expect(a_e, ws, "the dummy end records every loop end event as a "
+           "predecessor set", "update_in_event_sets", "P:end_event",
+           (f"[{ends}.event_type]",), [])
+    look = [f"M.get({ends},[])", f"M[{ends}]", f"M.get({ends})"]
+    hits = [w for w in ws if w[0] == "update_event_sets" and w[1] == ends]
+    fan = [w for w in hits if w[2] in ((f"each(M[{ends}])",),
+                                       (f"each(M.get({ends},[]))",))]
+    alone = [w for w in hits if w[2] == ("[DUMMY_END_EVENT]",)]
+    ok = len(hits) == 2 and len(fan) == 1 and len(alone) == 1
+    why = "; ".join(describe(w) for w in hits)[:400]
+    if ok:
+        ga, gf = alone[0][3], fan[0][3]
+        ok = len(ga) == 1 and ga[0][0] == "truth" and ga[0][1] in look \
+            and ga[0][2] == "0" and all(
+                g[0] == "truth" and g[1] in look and g[2] == "1" for g in gf)
+    rep.ob(rule, "an end event gets every recorded exit successor set, and "
+           "the dummy end alone exactly when nothing was recorded for it",
+           ok, fi=a_e, node=hits[0][4] if hits else a_e.node, detail=why)
+
+
+def r712(rep: Report, ctx: Ctx) -> None:
+    rep.rule("R7.12", "the dummy start / end of a loop body carry the "
+             "evidence of the loop's boundary in the parent graph", 12)
+    loop_boundary_evidence(rep, ctx, "R7.12")
